@@ -18,6 +18,8 @@ import (
 	"fmt"
 	"os"
 	"path/filepath"
+	"reflect"
+	"sort"
 	"strings"
 	"sync"
 	"time"
@@ -94,11 +96,20 @@ func isovmHandle(c map[string]J) map[string]J {
 	hist := c["hist"].([]J)
 	sees := c["sees"].(map[string]J)
 	var desc []string
+	enums := false
 	for _, h := range hist {
 		m := h.(map[string]J)
+		if e, ok := m["enum"].(string); ok {
+			enums = true
+			desc = append(desc, fmt.Sprintf("%s:%s(%s)", m["vm"], m["phase"], e))
+			continue
+		}
 		desc = append(desc, fmt.Sprintf("%s:%s", m["vm"], m["field"]))
 	}
 	input := "mutations " + strings.Join(desc, ", ")
+	if enums {
+		return isoEnumHistory(hist, field, dir, input)
+	}
 	for _, mode := range []string{"sequential", "concurrent"} {
 		outs := map[string]*strings.Builder{"A": {}, "B": {}, "C": {}}
 		vms := map[string]*prolog.Interpreter{}
@@ -137,10 +148,30 @@ func isovmHandle(c map[string]J) map[string]J {
 		if errA != nil || errB != nil {
 			return map[string]J{"status": "mismatch", "input": input + " (" + mode + ")", "what": "a state-changing directive failed", "expected": "success", "observed": fmt.Sprint(errA, " ", errB)}
 		}
+		// in the concurrent mode the two interpreters are also OBSERVED at the same time (under the race detector): reading the
+		// state of one interpreter must not touch anything the other one reads or writes
+		conc := map[string]map[string]string{"A": {}, "B": {}}
+		if mode == "concurrent" {
+			var wg sync.WaitGroup
+			for _, who := range []string{"A", "B"} {
+				wg.Add(1)
+				go func(who string) {
+					defer wg.Done()
+					for _, f := range isoFields {
+						conc[who][f.name] = isoObserve(vms[who], f)
+					}
+				}(who)
+			}
+			wg.Wait()
+		}
 		for _, f := range isoFields {
 			control := isoObserve(vms["C"], f)
 			for _, who := range []string{"A", "B"} {
 				got := isoObserve(vms[who], f)
+				if g, ok := conc[who][f.name]; ok && g != got {
+					return map[string]J{"status": "mismatch", "input": input + " (" + mode + ")", "what": fmt.Sprintf("field %s of interpreter %s observed while the other interpreter was being observed", f.name, who),
+						"expected": got, "observed": g}
+				}
 				want := control
 				if sees[who].(map[string]J)[f.name] == "mut" {
 					want = f.mutated
@@ -166,6 +197,92 @@ func isovmHandle(c map[string]J) map[string]J {
 		}
 		for _, who := range []string{"A", "B"} {
 			_ = vms[who].QuerySolution("catch(close(out1), _, true).").Err()
+		}
+	}
+	return map[string]J{"status": "ok", "input": input}
+}
+
+// isoEnumHistory runs a history with open enumerations (IsolationEnum.tla): the interleaving is executed on A and B in one
+// goroutine; what each enumeration delivered must be what the same interpreter delivers when it performs its own steps alone.
+var isoEnumQuery = map[string]string{"flags": "current_prolog_flag(F, V).", "ops": "current_op(P, T, N).", "preds": "current_predicate(X)."}
+
+func isoEnumHistory(hist []J, field map[string]isoField, dir, input string) map[string]J {
+	answersOf := func(only string) (map[string][]string, error) {
+		vms := map[string]*prolog.Interpreter{}
+		for _, n := range []string{"A", "B"} {
+			vms[n] = prolog.New(strings.NewReader(""), &strings.Builder{})
+		}
+		open := map[string]*prolog.Solutions{}
+		got := map[string][]string{}
+		take := func(who string, all bool) error {
+			s := open[who]
+			for s.Next() {
+				m := map[string]prolog.TermString{}
+				if err := s.Scan(m); err != nil {
+					return err
+				}
+				var keys []string
+				for k := range m {
+					keys = append(keys, k)
+				}
+				sort.Strings(keys)
+				var parts []string
+				for _, k := range keys {
+					parts = append(parts, k+"="+string(m[k]))
+				}
+				got[who] = append(got[who], strings.Join(parts, " "))
+				if !all {
+					return nil
+				}
+			}
+			return s.Err()
+		}
+		for _, h := range hist {
+			m := h.(map[string]J)
+			who := m["vm"].(string)
+			if only != "" && who != only {
+				continue
+			}
+			e, isEnum := m["enum"].(string)
+			switch {
+			case !isEnum:
+				if err := field[m["field"].(string)].mutate(vms[who], dir, who); err != nil {
+					return nil, fmt.Errorf("mutator %s on %s: %v", m["field"], who, err)
+				}
+			case m["phase"] == "open":
+				s, err := vms[who].Query(isoEnumQuery[e])
+				if err != nil {
+					return nil, err
+				}
+				open[who] = s
+				got[who] = append(got[who], "-- "+e)
+				if err := take(who, false); err != nil {
+					return nil, err
+				}
+			default:
+				if err := take(who, true); err != nil {
+					return nil, err
+				}
+				_ = open[who].Close()
+			}
+		}
+		return got, nil
+	}
+	inter, err := answersOf("")
+	if err != nil {
+		return map[string]J{"status": "mismatch", "input": input, "what": "a step of the history failed", "expected": "success", "observed": err.Error()}
+	}
+	for _, who := range []string{"A", "B"} {
+		alone, err := answersOf(who)
+		if err != nil {
+			return map[string]J{"status": "mismatch", "input": input, "what": "a step of the history failed (interpreter alone)", "expected": "success", "observed": err.Error()}
+		}
+		// (the order of the answers of these enumerations is that of a Go map: compared as multisets)
+		sort.Strings(inter[who])
+		sort.Strings(alone[who])
+		if !reflect.DeepEqual(inter[who], alone[who]) {
+			return map[string]J{"status": "mismatch", "input": input, "what": "answers of the enumerations of interpreter " + who + " (interleaved with the other interpreter vs alone)",
+				"expected": strings.Join(alone[who], " | "), "observed": strings.Join(inter[who], " | ")}
 		}
 	}
 	return map[string]J{"status": "ok", "input": input}
